@@ -116,7 +116,7 @@ def run(ctx, model=None):
         check_case(ctx, gen.tiny_reach_game(rng), model)
         check_case(ctx, gen.parallel_dead_game(rng), model)
         check_case(ctx, gen.decimal_sum_game(rng), model)
-    N = 300 if ctx.quick() else 40000
+    N = 300 if ctx.quick() else 120000
     for k in range(N):
         g = gen.stopping_game(rng, extra_finals=0.25) if k % 3 else gen.free_game(rng)
         check_case(ctx, g, model)
